@@ -52,6 +52,9 @@ def plan(tier: str, seed: int) -> list[dict]:
         cases.append({"k": "vmdk", "i": i})
     for i in range(30 if tier == "quick" else 3000):
         cases.append({"k": "hdd", "i": i})
+    for j in range(2 if tier == "quick" else 12):
+        # a storage of 2 TiB and more (64-bit sector counts in the descriptor and in the version-2 image header)
+        cases.append({"k": "hdd", "i": 9000 + j, "big": True, "weight": 12})
     for i in range(16 if tier == "quick" else 300):
         cases.append({"k": "vmdk-delta-multi", "i": i})
     return cases
@@ -238,8 +241,17 @@ def run(case: dict, ctx) -> dict:
     kinds = []
     same_names = rng.random() < 0.3
     oversized = 0
+    big_at = rng.randrange(0, 2) if case.get("big") else -1
     for j in range(nst):
-        if rng.random() < 0.7:
+        if j == big_at:
+            ms, ncl = 65536, 65536 + rng.choice([1, 7, 300])
+            bst = ["U"] * ncl
+            bst[rng.choice([0, 65535, ncl - 1])] = "A"
+            sf, layer, meta = whds.build_hds(rng, version=2, m_sectors=ms, nclusters=ncl, states=bst, placement="seq", tag=rng.getrandbits(48))
+            typ = "Compressed"
+            nsec = meta["size"] // SECTOR
+            parts.append(Model(meta["size"], [layer]))
+        elif rng.random() < 0.7:
             ms = rng.choice([1, 8, 16, 64])
             ncl = rng.randrange(1, 30)
             sf, layer, meta = whds.build_hds(rng, version=rng.choice([1, 2]), m_sectors=ms, nclusters=ncl, placement="shuffle", tag=rng.getrandbits(48))
@@ -289,6 +301,7 @@ def run(case: dict, ctx) -> dict:
     cnt["hdd_cases"] = 1
     cnt["hdd_same_base_name_in_subdirs"] = int(same_names)
     cnt["hdd_images_larger_than_their_storage"] = oversized
+    cnt["hdd_storages_of_2TiB_or_more"] = int(big_at >= 0)
     res["sets"]["storage_kind_sequences"] = ["+".join(kinds)]
     res["nontrivial"] = True
     res["sig"] = ("hdd", tuple(kinds), tuple(s["end"] for s in storages))
